@@ -810,7 +810,11 @@ func (ctx *RenderContext) EvaluateExpression(node Node) (interface{}, error) {
 		// We can't use pooling with defer here because the map is returned directly
 		result := make(map[string]interface{}, len(n.items))
 
-		for k, v := range n.items {
+		// Evaluate the pairs in source order, so that a key written twice is
+		// resolved the same way on every render (the last one wins)
+		for _, k := range n.keys {
+			v := n.items[k]
+
 			// Evaluate the key
 			keyVal, err := ctx.EvaluateExpression(k)
 			if err != nil {
